@@ -23,8 +23,8 @@ class Prop(SeqProp):
     pid = "C19"
     model = "generic"
     anchors = ["windpyutils/generic.py"]
-    quick_cases = 1200
-    thorough_cases = 3000
+    quick_cases = 4000
+    thorough_cases = 40000
     rule = ("int_2_roman/roman_2_int on all of 1..3999 (exhaustive, every run); arg_sort on random key lists with ties in both "
             "directions; sub_seq/search_sub_seq/compare_pos_in_iterables on sequences over a 2-3 letter alphabet (thorough: all "
             "pairs up to length 4/5, exhaustive); Batcher/BatcherIter on all (length<=12, batch<=7) pairs plus range objects of "
